@@ -438,9 +438,17 @@ theorem parseFresh_legacy {env : Env} {cfg : DwarfCfg} (msecs : Secs) (h : Heade
     simp [resolveStrings, legacyFields, Fields.get?]
   rw [r1]; simp only []
   rw [r2]; simp only []
-  simp only [lpOf, observe_legacy h secs is hv, legacyFields, hend, if_neg hv5]
+  have hvi5 : ¬ ((5 : Int) ≤ (h.version : Int)) := by omega
+  -- `program_start_offset`: `header_length` bytes past the `header_length` field
+  have hstart : pre.length + headerSize h
+      = pre.length + (if cfg.fmt = 32 then 4 else 12) + 2 + cfg.fmt / 8 + h.tail.length := by
+    have e1 : h.mid.length = 2 + offSize h.fmt64 := by simp [Header.mid, hv5, encNat_length]
+    rw [headerSize, e1, hfmt]
+    cases h.fmt64 <;> simp [initLenSize, offSize] <;> omega
+  simp only [lpOf, observe_legacy h secs is hv, legacyFields, hend, if_neg hv5, hstart]
   generalize (h.mid ++ h.tail ++ encodeProgram h.p is).length = N
-  simp [Fields.get?, Val.getNat, Val.getField, Fields.getR, Val.asNat, Val.asInt, bind, Except.bind, hneg]
+  simp [Fields.get?, Val.getNat, Val.getInt, Val.getField, Fields.getR, Val.asNat, Val.asInt, bind, Except.bind, hneg,
+    hvi5]
   omega
 
 end PyElf.Proofs.Line
